@@ -33,17 +33,17 @@ type CacheScen struct {
 	Callback bool
 	// CBReenter: the evicted callback calls back into the cache (Get, Set of another key, Delete)
 	CBReenter bool
-	Payload   bool // values are *payload (race check)
+	Payload   bool          // values are *payload (race check)
 	Def       time.Duration // default expiration given at construction (0 = none)
 	// Warm: the cache has already grown, shrunk back and run a cleanup pass that evicted two entries
 	// (start from a non-initial state)
-	Warm    bool
-	Classes int
-	CheckFn   bool
-	NoBlock   []bool
-	MaxSteps  []int
-	Bound     int
-	Expect    int
+	Warm     bool
+	Classes  int
+	CheckFn  bool
+	NoBlock  []bool
+	MaxSteps []int
+	Bound    int
+	Expect   int
 }
 
 func (cs *CacheScen) name() string {
@@ -187,6 +187,14 @@ func (cs *CacheScen) setup(l *tledger) (CacheLike, CState) {
 	}
 	vtime.VAdvance(3)
 	st.Now += 3
+	for _, ops := range cs.Threads {
+		for _, o := range ops {
+			if o.Op == CAdvance {
+				// the clock is moved by a scheduled thread: reading it becomes a scheduling point
+				vtime.VShared(true)
+			}
+		}
+	}
 	return c, st
 }
 
@@ -258,6 +266,9 @@ func (cs *CacheScen) Scenario() *Scenario {
 							})
 						}
 						out = COut{}
+					case CAdvance:
+						vtime.VAdvanceShared(in.D)
+						out = COut{}
 					default:
 						o := execCacheOp(c, in, nil, sched.Park)
 						o.Fired = l.take(t)
@@ -287,7 +298,18 @@ func (cs *CacheScen) Scenario() *Scenario {
 			var count, physN, liveSeen int
 			er := sched.Run([]sched.Body{func() {
 				count = c.Count()
-				physN = len(c.Physical())
+				phys := c.Physical()
+				physN = len(phys)
+				fillers := 0
+				for k := range phys {
+					if k >= fillTarget {
+						fillers++
+					}
+				}
+				// quiescent Count against the entries the specification says are physically present
+				// (live ones, and expired ones no call had to remove yet)
+				epi = append(epi, HOp{Thread: 9, In: CIn{Op: CCount}, Out: COut{N: count - fillers}, Call: ts, Ret: ts + 1})
+				ts += 2
 				for k := 0; k < cs.NKeys; k++ {
 					v, t, ok := c.GetWithExpiration(k)
 					if ok {
@@ -351,12 +373,26 @@ func (cs *CacheScen) Scenario() *Scenario {
 					}
 				case CCount:
 					// mid-flight Count is unconstrained
+					if o.Thread == 9 {
+						lin = append(lin, o)
+					}
 				default:
 					lin = append(lin, o)
 				}
 			}
 			if !lc.Check(lin) {
-				viols = append(viols, OViol{OLin | OLedger, "history is not linearizable w.r.t. the TTL-map semantics"})
+				// is it only the quiescent Count that no order of the calls explains?
+				var noCount []HOp
+				for _, o := range lin {
+					if !(o.Thread == 9 && o.In.(CIn).Op == CCount) {
+						noCount = append(noCount, o)
+					}
+				}
+				if lc.Check(noCount) {
+					viols = append(viols, OViol{OLin | OLedger | OCount, fmt.Sprintf("quiescent Count=%d (physical entries=%d, live entries=%d) is not what the completed calls leave behind under any order w.r.t. the TTL-map semantics", count, physN, liveSeen)})
+				} else {
+					viols = append(viols, OViol{OLin | OLedger, "history is not linearizable w.r.t. the TTL-map semantics"})
+				}
 			}
 			if count != physN || count < liveSeen {
 				viols = append(viols, OViol{OCount, fmt.Sprintf("quiescent Count=%d, physical entries=%d, live entries=%d", count, physN, liveSeen)})
